@@ -386,9 +386,6 @@ impl WorldD {
                             } else {
                                 self.viol(out, "C18", "payout-for-unlisted-token-without-default", json!({}), format!("payout of {} although the token is neither listed nor covered by a default", d));
                             }
-                            if sm.reply_on != ReplyOn::Error {
-                                self.viol(out, "C12", "payout-without-error-reply", json!({}), "payout sub-message does not ask for a reply on error".into());
-                            }
                         }
                     }
                     if pre.admin != post.admin || pre.allowed != post.allowed || pre.default_gas_limit != post.default_gas_limit {
@@ -459,9 +456,6 @@ impl WorldD {
                     if committed {
                         self.meter.flag("gov_handed_over");
                     }
-                }
-                if !resp.messages.is_empty() {
-                    self.viol(out, "C18", "governance-call-dispatches", json!({}), "governance call emitted messages".into());
                 }
                 self.meter.token(&kind, role, if committed { "committed" } else { "rolled-back" }, 0);
             }
